@@ -437,6 +437,7 @@ type cdrInfo struct {
 	Counts  map[string]int `json:"counts"` // session ref -> containers recorded
 	NextTag int32          `json:"nextTag"`
 	Tainted bool           `json:"tainted"` // an oversize record exists (known finding): successors are not explored
+	Sizes   []int          `json:"sizes"`   // BER size of every record
 }
 
 func cdrState(abstractCounts bool) func(w *World, h *HistRun) (string, any) {
@@ -493,6 +494,13 @@ func cdrState(abstractCounts bool) func(w *World, h *HistRun) (string, any) {
 			}
 		}
 		info.Tainted = len(oversizeRecords(h)) > 0
+		for _, supi := range sortedKeys(supis) {
+			recs, _ := supiRecords(supi)
+			for _, r := range recs {
+				b, _ := asn.BerMarshalWithParams(&r, "explicit,choice")
+				info.Sizes = append(info.Sizes, len(b))
+			}
+		}
 		return strings.Join(parts, " ") + " live=" + strings.Join(lv, ","), info
 	}
 }
@@ -604,7 +612,7 @@ func cdrScenarios(prop, tier string) []cdrScenario {
 		}
 	}
 	return []cdrScenario{
-		{name: "1ue-1sess-bulk900", depth: d(5, 7), maxSess: 1, bulks: []int{900}, prefix: []Op{mkCreate(0, "smf1")}},
+		{name: "1ue-1sess-bulk900-1300", depth: d(5, 6), maxSess: 1, bulks: []int{900, 1300}, prefix: []Op{mkCreate(0, "smf1")}},
 		{name: "1ue-1sess-bulk2000-4000", depth: d(3, 4), maxSess: 1, bulks: []int{2000, 4000}, prefix: []Op{mkCreate(0, "smf1")}},
 		{name: "1ue-2sess-bulk1300", depth: d(4, 5), maxSess: 2, bulks: []int{1300}},
 		{name: "2ue-small", depth: d(3, 5), twoUE: true, maxSess: 2, small: true},
@@ -638,6 +646,93 @@ func cdrCheck(t *testing.T, prop string) int {
 			exhaustive = false
 		}
 		perScen = append(perScen, map[string]any{"scenario": sc.name, "depth_bound": sc.depth, "depth_completed": st.MaxDepthDone, "states": st.States, "transitions": st.Transitions, "per_level": st.PerLevel})
+	}
+	sweep := map[int]bool{}
+	if prop == "C03" {
+		// boundary sweep: every record size in a window below (and just above) the 65535-octet limit
+		bulkOp := func(n int) Op {
+			return Op{K: "update", S: 0, MUs: []MU{{RG: 1, Req: 10, Conts: []Cont{{Vol: 10, Up: 3, Down: 7, SSU: 3, Seq: 100000, Offline: true}}, Bulk: n}}}
+		}
+		sizeOf := func(n int) int {
+			sz := -1
+			sp := BFSSpec{Name: "calibrate", Check: prop, Oracle: "C03", Cfg: WorldCfg{Accounts: bigAccounts}, Supis: []string{supiA}, Prefix: []Op{mkCreate(0, "smf1")}, MaxDepth: 1,
+				Alphabet: func(json.RawMessage, int) []Op { return []Op{bulkOp(n)} },
+				OnState: func(_ []Op, ib json.RawMessage) {
+					var in cdrInfo
+					json.Unmarshal(ib, &in)
+					for _, x := range in.Sizes {
+						sz = max(sz, x)
+					}
+				}}
+			st := BFSStats{}
+			RunBFS(pool, sp, rep, &st)
+			total.Transitions += st.Transitions
+			return sz
+		}
+		s1, s2 := sizeOf(3000), sizeOf(3400)
+		n0 := 0
+		if s1 > 0 && s2 > s1 {
+			per := float64(s2-s1) / 400
+			n0 = 3000 + int((65535-130-float64(s1))/per)
+		}
+		if n0 > 0 {
+			sp := BFSSpec{Name: "size-sweep", Check: prop, Oracle: "C03", Cfg: WorldCfg{Accounts: bigAccounts}, Supis: []string{supiA},
+				Prefix: []Op{mkCreate(0, "smf1"), bulkOp(n0)}, MaxDepth: 1,
+				Alphabet: func(json.RawMessage, int) (ops []Op) {
+					grow := []int32{10, 1000, 100000, 100000000} // 1..4 content octets
+					for m := 1; m <= 6; m++ {
+						for fat := 0; fat <= 15*m && fat <= 32; fat++ {
+							f := fat
+							lv := func() int32 { x := grow[min(f, 3)]; f -= min(f, 3); return x }
+							var cs []Cont
+							for k := 0; k < m; k++ {
+								c := Cont{Seq: int32(200 + k), Offline: true}
+								c.Vol, c.Up, c.Down, c.SSU = lv(), lv(), lv(), lv()
+								if f > 0 {
+									c.Seq = lv()
+								}
+								cs = append(cs, c)
+							}
+							ops = append(ops, Op{K: "update", S: 0, MUs: []MU{{RG: 1, Req: 10, Conts: cs}}})
+						}
+					}
+					return
+				},
+				OnState: func(_ []Op, ib json.RawMessage) {
+					var in cdrInfo
+					json.Unmarshal(ib, &in)
+					for _, x := range in.Sizes {
+						if x > 65535-200 {
+							sweep[x] = true
+						}
+					}
+				}}
+			st := BFSStats{}
+			RunBFS(pool, sp, rep, &st)
+			total.States += st.States
+			total.Transitions += st.Transitions
+			if st.EngineErrs > 0 {
+				exhaustive = false
+			}
+		}
+		maxReached := 0
+		for x := range sweep {
+			if x <= 65535 {
+				maxReached = max(maxReached, x)
+			}
+		}
+		// the update path's size guard compares cdr + request encodings, which over-estimates the merged record by the
+		// request's own SEQUENCE OF header; sizes above maxReached are not producible through it
+		lo, hi, missing := 65535-60, maxReached, []int{}
+		for x := lo; x <= hi; x++ {
+			if !sweep[x] {
+				missing = append(missing, x)
+			}
+		}
+		rep.Cov["size_sweep"] = map[string]any{"bulk_containers": n0, "record_sizes_reached_above_65335": len(sweep), "window": []int{lo, hi}, "largest_record_reached": maxReached, "sizes_in_window_not_reached": missing}
+		if len(missing) > 0 {
+			exhaustive = false
+		}
 	}
 	tsN := 0
 	if prop == "C02" {
